@@ -220,7 +220,12 @@ def evaluate(fmt, options, cli=None, cwd="proj", config_extra=None):
     body = "Body text of the project file.\n"
     base_opts = {"preprocess": False}
     config = None
-    if fmt == "md":
+    if fmt.startswith("md"):
+        # md+extra-other / md+no-extra: an fpm.toml beside the project file that says nothing about FORD
+        if fmt == "md+extra-other":
+            toml.write_text('name = "demo"\n[extra.fortitude.check]\nselect = ["C", "E"]\n')
+        elif fmt == "md+no-extra":
+            toml.write_text('name = "demo"\nversion = "0.1.0"\n[build]\nauto-executables = true\n')
         lines = []
         for k, v in {**base_opts, **opts}.items():
             lines += md_lines(k, v, OPTION_SEPARATORS.get(k, "="))
@@ -301,7 +306,8 @@ def check_formats(st: Stats, options, stratum, feats, cwd="proj"):
     fields, _ = field_table()
     root = workdir()
     res = {}
-    for fmt in ("md", "toml", "config"):
+    FMTS = ("md", "toml", "config", "md+extra-other", "md+no-extra")
+    for fmt in FMTS:
         res[fmt] = evaluate(fmt, options, cwd=cwd)
         st.evaluations += 1
         st.transitions += 1
@@ -310,7 +316,7 @@ def check_formats(st: Stats, options, stratum, feats, cwd="proj"):
     bad = 0
     errs = {f: r[1] for f, r in res.items() if r[1]}
     if errs:
-        if len(errs) < 3:
+        if len(errs) < len(FMTS):
             bad += 1
             st.violation("accepted-in-one-format-rejected-in-another", stratum, dict(feats, formats_failing="+".join(sorted(errs))), inp, errs, "same outcome in all formats")
         else:
@@ -320,7 +326,7 @@ def check_formats(st: Stats, options, stratum, feats, cwd="proj"):
         return
     c = {f: canon_settings(r[0]) for f, r in res.items()}
     st.states.add(core.digest(c["md"]))
-    for a, b in (("md", "toml"), ("md", "config"), ("toml", "config")):
+    for a, b in (("md", "toml"), ("md", "config"), ("toml", "config"), ("md", "md+extra-other"), ("md", "md+no-extra")):
         diff = {k: (c[a].get(k), c[b].get(k)) for k in set(c[a]) | set(c[b]) if c[a].get(k) != c[b].get(k)}
         if diff:
             bad += 1
